@@ -241,7 +241,23 @@ func catchPanic(function func()) (err error) {
 						return
 					}
 				}
-				err = errors.New(caught.string())
+				// Converting the thrown value to a string can run script code (toString,
+				// valueOf) that throws again; that second exception must not escape from here.
+				text := "uncaught exception"
+				if vl := caught.object(); vl != nil {
+					text = "[object " + vl.class + "]"
+				}
+				func() {
+					defer func() {
+						if again := recover(); again != nil {
+							if _, ok := again.(*exception); !ok {
+								panic(again)
+							}
+						}
+					}()
+					text = caught.string()
+				}()
+				err = errors.New(text)
 				return
 			}
 			panic(caught)
